@@ -104,6 +104,8 @@ func main() {
 	seed := fs.Int64("seed", 1, "PRNG seed")
 	n := fs.Int("n", 100, "number of generated cases")
 	inputs := fs.String("inputs", "", "JSONL file of cases to run instead of generating")
+	mode := fs.String("mode", "mix", "generator mode")
+	golden := fs.Bool("golden", true, "include the cases of /repo/testdata")
 	_ = fs.Parse(os.Args[2:])
 
 	switch cmd {
@@ -112,8 +114,10 @@ func main() {
 		if *inputs != "" {
 			cases = readCases(*inputs)
 		} else {
-			cases = append(cases, goldenCases(*repo)...)
-			cases = append(cases, genEngineCases(*seed, *n)...)
+			if *golden {
+				cases = append(cases, goldenCases(*repo)...)
+			}
+			cases = append(cases, genEngineCases(*seed, *n, *mode)...)
 		}
 		runEngine(cases, *outDir)
 	case "schema":
@@ -152,7 +156,8 @@ func runEngine(cases []Case, outDir string) {
 	}
 	rf, _ := os.Create(filepath.Join(outDir, "engine.impl"))
 	jf, _ := os.Create(filepath.Join(outDir, "engine.inputs.jsonl"))
-	cw, rw, jw := bufio.NewWriter(cf), bufio.NewWriter(rf), bufio.NewWriter(jf)
+	of, _ := os.Create(filepath.Join(outDir, "engine.orig"))
+	cw, rw, jw, ow := bufio.NewWriter(cf), bufio.NewWriter(rf), bufio.NewWriter(jf), bufio.NewWriter(of)
 	stats := map[string]int{}
 	for _, c := range cases {
 		out := runEngineCase(c)
@@ -170,6 +175,7 @@ func runEngine(cases []Case, outDir string) {
 			}
 			fmt.Fprintln(cw, out.caseLine)
 			fmt.Fprintln(rw, out.resLine)
+			fmt.Fprintln(ow, out.origLine)
 		}
 		bs, _ := json.Marshal(c)
 		jw.Write(bs)
@@ -178,6 +184,8 @@ func runEngine(cases []Case, outDir string) {
 	cw.Flush()
 	rw.Flush()
 	jw.Flush()
+	ow.Flush()
+	of.Close()
 	cf.Close()
 	rf.Close()
 	jf.Close()
